@@ -56,8 +56,9 @@ func Before[S ~string, T any, V constraints.Signed](n *V, c *cache.Cache[S, T], 
 func Once[S ~string, T comparable, V constraints.Signed](c *cache.Cache[S, T], fn func() T) T {
 	memo, _ := c.Get("func")
 	if memo == nil {
-		c.Set("func", fn(), cache.DefaultExpiration)
-		return fn()
+		res := fn()
+		c.Set("func", res, cache.DefaultExpiration)
+		return res
 	}
 	memo, _ = c.Get("func")
 
